@@ -108,6 +108,29 @@ def h_stitch_cols(k, n, decreasing, ncols = 2):
         c.check('column-j-takes-its-data-from-series-i+j', len(got) == len(want) and all(g[0] == w[0] and all(feq(a, b) for a, b in zip(g[1], w[1])) for g, w in zip(got, want)))
     return h
 
+UBS = [_rdt.datetime(2020, 1, 10), _rdt.datetime(2020, 2, 10), _rdt.datetime(2020, 3, 10)]
+def h_unslice(k, n, ncols):
+    """df_unslice of a stitched frame gives one series per bound, and stitching those again reproduces the frame.  The bounds are concrete (they become dict keys);
+    the stamps (anywhere around them) and the values are symbolic"""
+    def h(c):
+        from .c12 import frame_rows
+        Pm = P()
+        ts = sorted_stamps(c, 't', n, gap_days = 60)
+        series = [mkseries(c, [value(c, 's%d.v%d' % (j, i), nan = False) for i in range(n)], ts) for j in range(k)]
+        bounds = list(UBS[:k])
+        f = Pm.df_slice(list(series), None, list(bounds), '(]', n = ncols)
+        c.cover('a-period-without-rows', X.Or([X.And([X.Not(X.And(key(t) > key(lo_) if lo_ is not None else True, key(t) <= key(hi_))) for t in ts]) for lo_, hi_ in zip([None] + bounds[:-1], bounds)]))
+        res = Pm.df_unslice(f, list(bounds))
+        c.check('one-series-per-bound', isinstance(res, dict) and list(res.keys()) == bounds)
+        again = Pm.df_slice(list(res.values()), None, list(bounds), '(]', n = ncols)
+        def cells(x):
+            if x is None: return []
+            if isinstance(x, (minipd.DataFrame,)) or (not isinstance(x, (minipd.Series,)) and hasattr(x, 'columns')): return frame_rows(x)[0]
+            return [(t, (v,)) for t, v in rows(x)]
+        a, b = cells(f), cells(again)
+        c.check('stitching-the-recovered-series-again-reproduces-the-frame', len(a) == len(b) and all(p[0] == q[0] and len(p[1]) == len(q[1]) and all(feq(u, v) for u, v in zip(p[1], q[1])) for p, q in zip(a, b)))
+    return h
+
 def gate_stitch():
     """the real df_slice(list, ub = list, n = 2) under the real pandas vs under the model on a small exhaustive domain"""
     import pandas as rpd, itertools, pyg_base._pandas as RP
@@ -157,6 +180,11 @@ def obligations(tier):
             for dec in (False, True):
                 obs.append(Ob('stitch.%d-series.%d.%s' % (k, n, 'decreasing' if dec else 'increasing'), h_stitch(k, n, dec), setup = S, budget_s = 300 if q else 1500,
                               desc = 'stitching %d series over %d stamps with %s upper bounds' % (k, n, 'decreasing' if dec else 'increasing')))
+    for k in (2, 3):
+        for n in range(0, (3 if q else 4)):
+            for ncols in (1, 2):
+                obs.append(Ob('unslice.%d-bounds.%d-rows.%d-columns' % (k, n, ncols), h_unslice(k, n, ncols), setup = S, budget_s = 300 if q else 1500,
+                              desc = 'df_unslice of %d series stitched into %d column(s) over %d stamps: one series per bound, re-stitching reproduces the frame' % (k, ncols, n)))
     obs.append(Ob('gate.stitch-columns-model', gate_stitch, engine = 'gate', desc = 'df_slice(list of series, ub = list, n = 2) under the frame model == under the real pandas on a small exhaustive domain'))
     for k in (2, 3):
         for n in range(1, (3 if q else 4)):
